@@ -41,6 +41,23 @@ def genFullCfg (desc : Bool) (nodes : List Node) : Except PipeErr Cfg := do
   | (g', true) => pure g'
   | (_, false) => throw (.hang "liveness")
 
+/-- the pipeline up to and including the second run of the value analysis, with the set of
+    nodes that run visited: the graph the register claims of the final result were computed on -/
+def genValueCfg (desc : Bool) (nodes : List Node) : Except PipeErr (Cfg × List Nat) := do
+  let g1 ← liftCfg (buildCfg nodes none)
+  let g1 ← liftCfg (directions g1)
+  let g1 ← runAvail "stage1-available" g1
+  let names := interruptHandlerNames g1
+  let g ← liftCfg (buildCfg nodes (some names))
+  let g ← liftCfg (directions g)
+  let g := deadCode g
+  let g ← runAvail "available-1" g
+  let g := ecallTerm g
+  let g ← liftCfg (markup desc g)
+  match availableV g with
+  | (g', vis, true) => pure (g', vis)
+  | (_, _, false) => throw (.hang "available-2")
+
 /-! ### traces -/
 
 def idxList (l : List Nat) : String := "[" ++ ",".intercalate (l.map toString) ++ "]"
@@ -214,6 +231,19 @@ def pipeTrace (stages : List String) (files : List (String × String)) (desc : B
           match applyExtra g extra.toList with
           | none => ["HANG extra"]
           | some g' => cfgTrace "XCFG" g' ++ factTrace "XFACT" g' ++ (runLints g').map (Diag.trace "XLINT")
-    parseLines ++ stepLines ++ fullLines ++ extraLines ++ runLines
+    -- stage `good` (model only): are the finished value facts a fixed point in the sense of
+    -- `GoodFacts` (the hypothesis of `exec_sound`)?
+    let goodLines : List String :=
+      if stages.contains "good" then
+        match genValueCfg desc out.nodes with
+        | .error e => [s!"GOODFACTS n/a {pipeErrTrace e}"]
+        | .ok (g, vis) =>
+          let same := match genFullCfg desc out.nodes with
+            | .ok gf => (List.range g.nodes.size).all fun i =>
+                AMap.sameAs (g.get i).regIn (gf.get i).regIn && AMap.sameAs (g.get i).regOut (gf.get i).regOut
+            | .error _ => false
+          [s!"GOODFACTS {goodFactsB g vis} final-facts-are-these={same} visited={vis.length}/{g.nodes.size}"]
+      else []
+    parseLines ++ stepLines ++ fullLines ++ extraLines ++ runLines ++ goodLines
 
 end Rva
